@@ -224,6 +224,8 @@ class EnumGen:
                 out.append('    #[strum(props(%s))]' % body)
         for dline in v.docs:
             out.append('    #[doc = %s]' % rust_str(dline))
+        for a in self.e.extra.get('variant_attrs', {}).get(v.ident, []):
+            out.append('    ' + a)
         if items:
             if v.attr_layout == 'split':
                 for it in items:
@@ -291,7 +293,7 @@ class EnumGen:
 
     def enum_item(self, base_derives=('Debug', 'PartialEq', 'Clone')):
         e = self.e
-        out = []
+        out = list(e.extra.get('pre_items', []))
         for fn, t in self.dw_fns().items():
             out.append('fn %s() -> %s { %s }' % (fn, field_ty(t, inst=True) if t in ('T',) else field_ty(t).replace("'a", "'static"), field_val(t, 1)))
         ds = list(base_derives) + [self.sp_derive(d) for d in e.derives]
@@ -626,7 +628,96 @@ class EnumGen:
                '}']
         return out, [('varray', 'op_varray')]
 
-    FEATS = {'parse': 'feat_parse', 'names': 'feat_names', 'roundtrip': 'feat_roundtrip', 'iter': 'feat_iter',
+    def repr_ty(self):
+        return self.e.repr or 'usize'
+
+    def feat_repr(self):
+        e = self.e
+        R = self.repr_ty()
+        all_unit = all(v.kind == 'unit' for v in e.variants)
+        out = ['fn op_repr(a: &[&str]) -> String {',
+               '    let x: i128 = a[1].parse().unwrap();',
+               '    let d: %s = match <%s as core::convert::TryFrom<i128>>::try_from(x) { Ok(d) => d, Err(_) => return "out-of-range".to_string() };' % (R, R),
+               '    match Inst::from_repr(d) { Some(v) => format!("some {}{}", ident_of(&v), payload(&v).replace(" ", ":")), None => "none".to_string() }',
+               '}']
+        ops = [('repr', 'op_repr')]
+        if R in ('u8', 'i8', 'u16', 'i16'):
+            out += ['fn op_reprall(a: &[&str]) -> String {',
+                    '    let mut o: Vec<String> = Vec::new();',
+                    '    let mut n = 0usize;',
+                    '    for d in %s::MIN..=%s::MAX {' % (R, R),
+                    '        n += 1;',
+                    '        if let Some(v) = Inst::from_repr(d) { o.push(format!("{}={}{}", d, ident_of(&v), payload(&v).replace(" ", ":"))); }',
+                    '    }',
+                    '    format!("tried={} {}", n, o.join(" ")).trim_end().to_string()',
+                    '}']
+            ops.append(('reprall', 'op_reprall'))
+        # numeric discriminants of the enum itself
+        if all_unit and e.variants:
+            out += ['fn op_discrs(a: &[&str]) -> String {',
+                    '    let mut o: Vec<String> = vec!["n=%d".to_string()];' % len(e.variants)]
+            for v in e.variants:
+                out.append('    o.push(format!("{}", (%s::%s%s as %s) as i128));' % (e.name, self.ginst_turbofish(), v.ident, R if e.repr else 'isize'))
+            out += ['    o.join(" ")', '}']
+            ops.append(('discrs', 'op_discrs'))
+        elif e.repr and e.variants:
+            out += ['fn op_discrs(a: &[&str]) -> String {',
+                    '    let mut o: Vec<String> = vec!["n=%d".to_string()];' % len(e.variants)]
+            for v in e.variants:
+                out.append('    { let v = mk("%s", 1, "").unwrap(); let d: %s = unsafe { *(&v as *const Inst as *const %s) }; o.push(format!("{}", d as i128)); }' % (hx(v.ident), R, R))
+            out += ['    o.join(" ")', '}']
+            ops.append(('discrs', 'op_discrs'))
+        is_const = all(v.kind == 'unit' for v in e.variants if not v.dis)
+        if is_const:
+            out.append('const _FROM_REPR_IS_CONST: Option<Inst> = Inst::from_repr(0 as %s);' % R)
+        out.append('fn op_constfn(a: &[&str]) -> String { "const=%d".to_string() }' % (1 if is_const else 0))
+        ops.append(('constfn', 'op_constfn'))
+        return out, ops
+
+    def ginst_turbofish(self):
+        return ''
+
+    def disc_name(self):
+        return self.e.extra.get('dname') or (self.e.name + 'Discriminants')
+
+    def feat_disc(self):
+        e = self.e
+        D = self.disc_name()
+        has_into = e.extra.get('dvis', 0) != 2
+        evalflag = e.extra.get('evalflag', 0)
+        R = self.repr_ty()
+        out = []
+        for line in e.extra.get('disc_asserts', []):
+            out.append(line.replace('$D', D))
+        out += ['fn op_disc(a: &[&str]) -> String {',
+                '    let alt: u8 = a[2].parse().unwrap();',
+                '    let v = match mk(a[1], alt, "") { Some(v) => v, None => return "bad-op".to_string() };',
+                '    let f1: %s = <%s as core::convert::From<Inst>>::from(v.clone());' % (D, D),
+                '    let f2: %s = <%s as core::convert::From<&Inst>>::from(&v);' % (D, D),
+                '    let tn = std::any::type_name::<%s>();' % D,
+                '    let short = tn.rsplit("::").next().unwrap();']
+        if has_into:
+            out.append('    let into = { let f3: %s = %s::IntoDiscriminant::discriminant(&v); hex(format!("{:?}", f3).as_bytes()) };' % (D, self.sp))
+        else:
+            out.append('    let into = "-".to_string();')
+        if evalflag == 1:
+            out.append('    let ev = format!("{}", (v.clone() as %s) as i128);' % (R if e.repr else 'isize'))
+        elif evalflag == 2:
+            out.append('    let ev = { let d: %s = unsafe { *(&v as *const Inst as *const %s) }; format!("{}", d as i128) };' % (R, R))
+        else:
+            out.append('    let ev = "?".to_string();')
+        pt = e.extra.get('pt_expect')
+        if pt:
+            out.append('    let pt = { let exp: &[(&str, &str)] = &[%s]; let got = f1.to_string(); let want = exp.iter().find(|p| p.0 == a[1]).map(|p| p.1).unwrap_or(""); if got == want { "ok".to_string() } else { format!("bad:{}", got) } };'
+                       % ', '.join('("%s", %s)' % (hx(k), rust_str(val)) for k, val in pt.items()))
+        else:
+            out.append('    let pt = "ok".to_string();')
+        out += ['    format!("name={} from={} from_ref={} into={} val={} eval={} pt={} size_ok={}", hex(short.as_bytes()), hex(format!("{:?}", f1).as_bytes()), hex(format!("{:?}", f2).as_bytes()), into, (f1 as %s) as i128, ev, pt, %s)'
+                % (R if e.repr else 'isize', ('core::mem::size_of::<%s>() == core::mem::size_of::<%s>()' % (D, R)) if e.repr else 'true'),
+                '}']
+        return out, [('disc', 'op_disc')]
+
+    FEATS = {'repr': 'feat_repr', 'disc': 'feat_disc', 'parse': 'feat_parse', 'names': 'feat_names', 'roundtrip': 'feat_roundtrip', 'iter': 'feat_iter',
              'count': 'feat_count', 'vnames': 'feat_vnames', 'varray': 'feat_varray'}
 
     def render(self):
@@ -636,7 +727,7 @@ class EnumGen:
             pass
         out += self.enum_item(tuple(e.extra.get('base_derives', ('Debug', 'PartialEq', 'Clone'))))
         out += self.fn_ident_of()
-        if any(f in e.feats for f in ('parse', 'names', 'roundtrip', 'mk', 'iter', 'repr')):
+        if any(f in e.feats for f in ('parse', 'names', 'roundtrip', 'mk', 'iter', 'repr', 'disc')):
             out += self.fn_mk()
             out += self.fn_payload()
         ops = []
